@@ -48,6 +48,31 @@ func init() {
 		b.WriteString("].\n")
 		// true when the default clause is `return 0, false`
 		fmt.Fprintf(&b, "Definition oper_state_default_rejects : bool := %v.\n", deflt)
+
+		// the events of the model are atomic: Subscribe and the closing of the channels run under the write lock from
+		// their first statement to their return, notify under the read lock (w.mu.Lock(); defer w.mu.Unlock() /
+		// w.mu.RLock(); defer w.mu.RUnlock() as the first two statements, no other lock operation in the body)
+		atomic := func(fn, lock, unlock string) bool {
+			fd := findFunc(x.file(wat), fn)
+			if fd == nil || fd.Body == nil || len(fd.Body.List) < 2 {
+				return false
+			}
+			return nsLockedWhole(fd.Body, lock, unlock)
+		}
+		fmt.Fprintf(&b, "Definition subscribe_atomic : bool := %v. (* %s Subscribe: w.mu held from the first statement to the return *)\n", atomic("Watcher.Subscribe", "Lock", "Unlock"), wat)
+		fmt.Fprintf(&b, "Definition notify_atomic : bool := %v. (* %s notify: w.mu read-held from the first statement to the return *)\n", atomic("Watcher.notify", "RLock", "RUnlock"), wat)
+		closeOK := false
+		if fd := findFunc(x.file(wat), "Watcher.Watch"); fd != nil && fd.Body != nil {
+			ast.Inspect(fd.Body, func(n ast.Node) bool {
+				if d, ok := n.(*ast.DeferStmt); ok {
+					if fl, ok := d.Call.Fun.(*ast.FuncLit); ok && nsLockedWhole(fl.Body, "Lock", "Unlock") && containsBuiltin(fl.Body, "close") {
+						closeOK = true
+					}
+				}
+				return true
+			})
+		}
+		fmt.Fprintf(&b, "Definition close_atomic : bool := %v. (* %s Watch: the deferred closing of every channel runs under w.mu *)\n", closeOK, wat)
 		return b.String()
 	})
 }
@@ -170,4 +195,42 @@ func nsOperTable(f *ast.File) (tab [][2]string, defaultRejects bool, ok bool) {
 		}
 	}
 	return tab, defaultRejects, true
+}
+
+// nsLockedWhole: the block starts with w.mu.<lock>(); defer w.mu.<unlock>() and contains no other operation on mu.
+func nsLockedWhole(b *ast.BlockStmt, lock, unlock string) bool {
+	if len(b.List) < 2 || !isSelSelCall(b.List[0], "mu", lock) {
+		return false
+	}
+	d, ok := b.List[1].(*ast.DeferStmt)
+	if !ok || !isSelSelCallExpr(d.Call, "mu", unlock) {
+		return false
+	}
+	okAll := true
+	for _, st := range b.List[2:] {
+		ast.Inspect(st, func(n ast.Node) bool {
+			if e, ok := n.(ast.Expr); ok {
+				for _, m := range []string{"Lock", "Unlock", "RLock", "RUnlock"} {
+					if isSelSelCallExpr(e, "mu", m) {
+						okAll = false
+					}
+				}
+			}
+			return true
+		})
+	}
+	return okAll
+}
+
+func containsBuiltin(n ast.Node, name string) bool {
+	found := false
+	ast.Inspect(n, func(nd ast.Node) bool {
+		if c, ok := nd.(*ast.CallExpr); ok {
+			if id, ok := c.Fun.(*ast.Ident); ok && id.Name == name {
+				found = true
+			}
+		}
+		return true
+	})
+	return found
 }
